@@ -7,9 +7,20 @@ package scheduler
 // C18: dropping a torrent deletes its file from the archive only while the dispatcher reports it
 // incomplete - a completed blob is never deleted by an idle timeout or a cancellation.
 //@ func state.removeTorrent
-//@   requires s != nil
+//@   requires s != nil && s.torrentControls != nil
+//@   requires forall k core.InfoHash :: k in s.torrentControls ==> s.torrentControls[k] != nil && allocated(s.torrentControls[k])
 //@   modifies *
 //@   assert keeps_completed_blob: at storage.TorrentArchive.DeleteTorrent#0 :: !ctrl.dispatcher.done
+//@   ensures removed: !(h in s.torrentControls)
+//@   ensures waiters_answered: old(h in s.torrentControls) ==> answered(old(s.torrentControls[h]))
+//@   ensures others_kept: forall k core.InfoHash :: k != h ==> ((k in s.torrentControls) <==> old(k in s.torrentControls)) && s.torrentControls[k] == old(s.torrentControls[k])
+//@   ensures sends_monotone: forall ch int :: sent(ch) >= old(sent(ch))
+//@   loop 0 invariant mono: forall ch int :: sent(ch) >= old(sent(ch))
+//@   loop 1 invariant mono: forall ch int :: sent(ch) >= old(sent(ch))
+//@   loop 0 invariant progress: 0 - 1 <= rangeindex && rangeindex < len(ctrl.errors) && (forall j int :: 0 <= j && j <= rangeindex ==> sent(ctrl.errors[j]) >= 1)
+//@   loop 0 invariant same: ctrl == old(s.torrentControls[h]) && ctrl.errors == old(ctrl.errors) && (forall k core.InfoHash :: ((k in s.torrentControls) <==> old(k in s.torrentControls)) && s.torrentControls[k] == old(s.torrentControls[k]))
+//@   loop 1 invariant progress: 0 - 1 <= rangeindex && rangeindex < len(ctrl.errors) && (forall j int :: 0 <= j && j <= rangeindex ==> sent(ctrl.errors[j]) >= 1)
+//@   loop 1 invariant same: ctrl == old(s.torrentControls[h]) && ctrl.errors == old(ctrl.errors) && (forall k core.InfoHash :: ((k in s.torrentControls) <==> old(k in s.torrentControls)) && s.torrentControls[k] == old(s.torrentControls[k]))
 
 // C18: the preemption tick drops a torrent only if it has been idle for the seeder limit (no
 // piece served) or for the leecher limit (no piece received), measured on the scheduler's clock.
@@ -17,3 +28,41 @@ package scheduler
 //@   requires s != nil
 //@   modifies *
 //@   assert only_idle: at state.removeTorrent#0 :: (s.sched.clock.now - ctrl.dispatcher.obsRead >= s.sched.config.SeederTTI) || (s.sched.clock.now - ctrl.dispatcher.obsWrite >= s.sched.config.LeecherTTI)
+
+// ---- C17: no waiter of a Download call is lost -------------------------------------------------
+// sent(ch) is the ghost count of messages sent on a channel. A waiter channel is "answered" once
+// sent(ch) >= 1 (doDownload returns the first message it receives). Every step that removes a
+// torrent control, or stops the loop, must leave all of that control's waiters answered.
+
+//@ specfunc answered(c *torrentControl) bool = forall j int :: 0 <= j && j < len(c.errors) ==> sent(c.errors[j]) >= 1
+
+//@ func shutdownEvent.apply
+//@   requires s != nil && s.torrentControls != nil
+//@   requires forall h core.InfoHash :: h in s.torrentControls ==> s.torrentControls[h] != nil && allocated(s.torrentControls[h])
+//@   modifies *
+//@   assert all_answered: at eventLoop.stop#0 :: forall h core.InfoHash :: h in s.torrentControls ==> answered(s.torrentControls[h])
+//@   loop 1 invariant ctrls: forall h core.InfoHash :: ((h in s.torrentControls) <==> entry(h in s.torrentControls)) && s.torrentControls[h] == entry(s.torrentControls[h]) && (h in s.torrentControls ==> s.torrentControls[h] != nil && allocated(s.torrentControls[h]))
+//@   loop 1 invariant done: forall h core.InfoHash :: seen1(h) && h in s.torrentControls ==> answered(s.torrentControls[h])
+//@   loop 2 invariant ctrls: forall h core.InfoHash :: ((h in s.torrentControls) <==> entry(h in s.torrentControls)) && s.torrentControls[h] == entry(s.torrentControls[h]) && (h in s.torrentControls ==> s.torrentControls[h] != nil && allocated(s.torrentControls[h]))
+//@   loop 2 invariant done: forall h core.InfoHash :: seen1(h) && h in s.torrentControls && s.torrentControls[h] != ctrl ==> answered(s.torrentControls[h])
+//@   loop 2 invariant cur: ctrl != nil && allocated(ctrl) && 0 - 1 <= rangeindex && rangeindex < len(ctrl.errors) && (forall j int :: 0 <= j && j <= rangeindex ==> sent(ctrl.errors[j]) >= 1)
+//@   loop 2 invariant errs_same: ctrl.errors == entry(ctrl.errors)
+
+// The completion event answers every waiter of the completed torrent's control and forgets them;
+// no other control's waiter list changes.
+//@ specfunc oldAnswered(c *torrentControl) bool = forall j int :: 0 <= j && j < len(old(c.errors)) ==> sent(old(c.errors)[j]) >= 1
+//@ func dispatcherCompleteEvent.apply
+//@   requires s != nil && s.torrentControls != nil
+//@   requires forall k core.InfoHash :: k in s.torrentControls ==> s.torrentControls[k] != nil && allocated(s.torrentControls[k])
+//@   modifies *
+//@   ensures controls_kept: forall k core.InfoHash :: ((k in s.torrentControls) <==> old(k in s.torrentControls)) && s.torrentControls[k] == old(s.torrentControls[k])
+//@   ensures no_waiter_dropped: forall k core.InfoHash :: k in s.torrentControls ==> s.torrentControls[k].errors == old(s.torrentControls[k].errors) || oldAnswered(s.torrentControls[k])
+//@   loop 0 invariant progress: 0 - 1 <= rangeindex && rangeindex < len(ctrl.errors) && (forall j int :: 0 <= j && j <= rangeindex ==> sent(ctrl.errors[j]) >= 1)
+//@   loop 0 invariant same: ctrl != nil && allocated(ctrl) && (forall k core.InfoHash :: ((k in s.torrentControls) <==> old(k in s.torrentControls)) && s.torrentControls[k] == old(s.torrentControls[k]) && (k in s.torrentControls ==> s.torrentControls[k].errors == old(s.torrentControls[k].errors)))
+
+// A new request is either answered at once or registered as the last waiter of its control.
+//@ func newTorrentEvent.apply
+//@   requires s != nil && s.torrentControls != nil
+//@   requires forall k core.InfoHash :: k in s.torrentControls ==> s.torrentControls[k] != nil && allocated(s.torrentControls[k])
+//@   modifies *
+//@   ensures answered_or_registered: sent(e.errc) >= old(sent(e.errc)) + 1 || (ctrl != nil && len(ctrl.errors) >= 1 && ctrl.errors[len(ctrl.errors) - 1] == e.errc)
